@@ -144,6 +144,48 @@ class Executor:
     def __init__(self, ctx):
         self.ctx = ctx
         self.ev = Evaluator(ctx)
+        self.inline = self._index_inline_asserts()
+
+    # ---- assertions at program points (contract field `inline_asserts`) ---------------------
+    def _index_inline_asserts(self):
+        """inline_asserts = {'<first line of a statement, or a prefix of it>': [clauses]}.
+        The clauses are checked (obligation kind `assert`, then assumed) right AFTER every
+        normal completion of that statement; a clause `ghost NAME = expr` binds a specification
+        name to the value of expr at that point instead.  A key must select exactly one
+        statement of the function, otherwise the contract is out of date."""
+        ia = getattr(self.ctx.contract, 'inline_asserts', None) if self.ctx.contract else None
+        if not ia:
+            return {}
+        stmts = [n for n in self.ctx._preorder(self.ctx.fn) if isinstance(n, ast.stmt) and n is not self.ctx.fn]
+        out = {}
+        for key, clauses in ia.items():
+            hits = [n for n in stmts if ast.unparse(n).split('\n')[0].startswith(key.strip())]
+            if len(hits) != 1:
+                raise ContractError(f"{self.ctx.qualname}: inline assertion key {key!r} selects "
+                                    f"{len(hits)} statements (contract out of date)")
+            out.setdefault(id(hits[0]), []).extend(clauses)
+        return out
+
+    def apply_inline_asserts(self, node, outs):
+        ctx = self.ctx
+        for o in outs:
+            if o.kind != 'normal':
+                continue
+            for text in self.inline[id(node)]:
+                t = text.strip()
+                ghost_name = None
+                if t.startswith('ghost '):
+                    ghost_name, t = [x.strip() for x in t[6:].split('=', 1)]
+                expr = ast.parse(t, mode='eval').body
+                ctx.spec_mode += 1
+                try:
+                    v = self.ev.eval(o.state, expr)
+                finally:
+                    ctx.spec_mode -= 1
+                if ghost_name is not None:
+                    o.state.ghost[ghost_name] = v
+                else:
+                    ctx.oblige(o.state, truth(v), 'assert', node, f"at `{ast.unparse(node).splitlines()[0][:60]}`: {text}")
 
     # ---- blocks ---------------------------------------------------------------------------
     def block(self, stmts, state):
@@ -162,6 +204,9 @@ class Executor:
 
     def stmt(self, node, state):
         ctx = self.ctx
+        # exceptional outcomes pending in the *enclosing* statement (calls made in an if / while
+        # test or a for iterable before this nested statement runs) must survive this statement
+        outer_pending = ctx.pending
         ctx.pending = []
         pre = state.copy() if True else None
         m = getattr(self, 's_' + type(node).__name__, None)
@@ -179,7 +224,7 @@ class Executor:
                 raise
             outs = self.abstract_stmt(node, state, why=str(e))
         # exceptional outcomes of calls made while evaluating this statement
-        pend, ctx.pending = ctx.pending, []
+        pend, ctx.pending = ctx.pending, outer_pending
         extra = []
         for p in pend:
             s = pre.copy()
@@ -193,6 +238,8 @@ class Executor:
                 except Exception:
                     pass
             extra.append(Outcome('raise', s, exc=p.exc))
+        if self.inline and id(node) in self.inline:
+            self.apply_inline_asserts(node, outs)
         return outs + extra
 
     def mentions_tracked(self, node):
@@ -456,6 +503,11 @@ class Executor:
                 write_ref(state, base_ref, r)
                 return
             iv = ev.eval(state, sl)
+            if iv.ty[0] == 'opt' and iv.ty[1][0] in ('list', 'arr', 'int'):
+                # a[None] would be numpy's newaxis: the model demands a real index here
+                ctx.oblige(state, z3.Not(T.opt_is_none(iv.ty, iv.term)), 'TypeError', node,
+                           'index is not None')
+                iv = select(iv, ('some',))
             if iv.ty[0] in ('list', 'arr'):
                 from . import numpy_prims
                 numpy_prims_store = getattr(numpy_prims, 'fancy_store', None)
@@ -663,6 +715,10 @@ class Executor:
                 if isinstance(n, ast.Call) and isinstance(n.func, ast.Attribute) and \
                         n.func.attr in ('start',) + tuple(ctx.contract.ghost.get('mutators', ())):
                     mutated |= gvars
+                # plain-name calls listed as ghost mutators (e.g. mkstemp_clean(...))
+                if isinstance(n, ast.Call) and isinstance(n.func, ast.Name) and \
+                        n.func.id in tuple(ctx.contract.ghost.get('mutators', ())):
+                    mutated |= gvars
         s = state
         # cells reachable from mutated names
         for n in sorted(mutated):
@@ -738,7 +794,15 @@ class Executor:
         self.check_invariants(spec, state, node, 'establish')
         s, assigned, mutated = self.loop_frame(node, state)
         self.assume_invariants(spec, s)
-        c = truth(self.ev.eval(s, node.test))
+        try:
+            c = truth(self.ev.eval(s, node.test))
+        except Unsupported as e:
+            if not ctx.lenient:
+                raise
+            # slice mode: a loop condition the model cannot evaluate is non-deterministic
+            ctx.abstracted.append(f"L{node.lineno}: while {ast.unparse(node.test)[:60]}  "
+                                  f"[condition abstracted: {str(e)[:50]}]")
+            c = z3.Bool(fresh_name('while_cond'))
         s_exit = s.copy()
         s_exit.assume(z3.Not(c))
         s_body = s
@@ -863,6 +927,18 @@ class Executor:
         return results
 
     def iteration_source(self, node, state):
+        if not self.ctx.lenient:
+            return self._iteration_source(node, state)
+        try:
+            return self._iteration_source(node, state)
+        except Unsupported as e:
+            # slice mode: an iteration the model cannot follow runs an unknown number of rounds
+            # with unknown targets; the body is still executed symbolically
+            self.ctx.abstracted.append(f"L{node.lineno}: for ... in {ast.unparse(node.iter)[:60]}  "
+                                       f"[iteration abstracted: {str(e)[:60]}]")
+            return OpaqueIter(node, self.ctx.loop_ordinals[id(node)], self.ctx)
+
+    def _iteration_source(self, node, state):
         ev = self.ev
         it = node.iter
         ord_ = self.ctx.loop_ordinals[id(node)]
@@ -918,7 +994,7 @@ class Executor:
             lst.meta = ('tuple_of', [select(v, ('fld', i)) for i in range(len(v.ty[1]))])
             return SeqIter([lst], node, ord_, roots=roots)
         if v.ty == T.OPAQUE and self.ctx.lenient:
-            return OpaqueIter(node, ord_)
+            return OpaqueIter(node, ord_, self.ctx)
         raise Unsupported(f"iteration over {T.show(v.ty)} at line {node.lineno}")
 
     def seq_source(self, a, state):
@@ -1189,10 +1265,11 @@ class RecKeysIter(SetIter):
 class OpaqueIter:
     """iteration over an abstracted value (slice mode): unknown number of rounds"""
 
-    def __init__(self, node, ord_):
+    def __init__(self, node, ord_, ctx=None):
         self.node = node
         self.ord = ord_
         self.roots = set()
+        self.ctx = ctx
 
     def ghost_init(self, state):
         return {}
@@ -1210,7 +1287,10 @@ class OpaqueIter:
     def bind_target(self, ex, state, node):
         for n in ast.walk(node.target):
             if isinstance(n, ast.Name):
-                state.bind(n.id, fresh(T.OPAQUE, 'it_' + n.id))
+                hint = self.ctx.hint_type(n.id) if self.ctx is not None else None
+                v = fresh(hint or T.OPAQUE, 'it_' + n.id)
+                state.assume(*wf(v))
+                state.bind(n.id, v)
 
     def ghost_step(self, state, body_ghost):
         return {}
